@@ -49,9 +49,8 @@ def file_edges(ck, mod, rmax, owner):
             inv = [off[0] == 0, g[0] >= 0, off[R - 1] < LEN]
             for i in range(R - 1):
                 inv += [g[i] < g[i + 1], off[i] < off[i + 1], g[i + 1] - g[i] >= off[i + 1] - off[i]]
-            opened = []
-
             def mk():
+                opened = []
                 rows = [(pysym.SymInt(g[i]), pysym.SymInt(off[i])) for i in range(R)]
 
                 def File(name, mode="r", **kw):
@@ -59,7 +58,6 @@ def file_edges(ck, mod, rmax, owner):
                     f = _File({"rf_data": types.SimpleNamespace(shape=(pysym.SymInt(LEN), 1)), "rf_data_index": _Rows(rows)})
                     return f
                 mod.h5py = types.SimpleNamespace(File=File)
-                del opened[:]
                 return (types.SimpleNamespace(), "/top/ch/sub/rf@1.000.h5"), {}, opened
             try:
                 outs = pysym.explore(getattr(cls, nm), mk, inv, max_paths=200)
@@ -94,10 +92,8 @@ def dir_bounds(ck, mod, nmax):
             F = {f: z3.Int("first[%d]" % i) for i, f in enumerate(files)}
             Lq = {f: z3.Int("last[%d]" % i) for i, f in enumerate(files)}
             st = dict(zip(files, status))
-            calls = []
-
             def mk():
-                del calls[:]
+                calls = []
 
                 def ilsdrf(path, **kw):
                     calls.append((path, dict(kw)))
